@@ -198,4 +198,27 @@ let () =
        | other -> of_api (fun _ -> A "x") other)
     | _ -> raise (Parse_error "args"))
 
+
+(* ---- edismax (C09, C10) ---- *)
+let of_q (q : M.q) = L [of_z q.M.qnum; A (BZ.to_string (bz_of_pos q.M.qden))]
+let to_q = function L [n; d] -> { M.qnum = to_z n; M.qden = pos_of_bz (BZ.of_string (match d with A s -> s | _ -> "1")) } | _ -> raise (Parse_error "q")
+let to_phase = function L [fi; b] -> { M.ph_field = to_nat fi; M.ph_boost = to_option to_z b } | _ -> raise (Parse_error "phase")
+let build_equery fields mm tie pf pf2 pf3 =
+  let mk = function
+    | L [docs; boost; terms] ->
+        (match M.index false (nat_of_int 1000000) (to_docs docs) with
+         | M.AOk ix -> { M.ef_arr = M.of_index ix true; M.ef_boost = to_option to_z boost; M.ef_terms = nl terms }
+         | _ -> raise (Parse_error "index failed"))
+    | _ -> raise (Parse_error "field") in
+  { M.eq_fields = List.map mk (match fields with L l -> l | _ -> []); M.eq_mm = to_mmspec mm; M.eq_tie = to_q tie;
+    M.eq_pf = to_list to_phase pf; M.eq_pf2 = to_list to_phase pf2; M.eq_pf3 = to_list to_phase pf3 }
+let to_idf = to_list (function L [fi; ts; v] -> ((to_nat fi, nl ts), to_z v) | _ -> raise (Parse_error "idf"))
+let () =
+  register "edismax" (function [n; fields; mm; tie; pf; pf2; pf3; idf] ->
+      of_api (of_list of_q) (M.edismax (to_idf idf) (to_nat n) (build_equery fields mm tie pf pf2 pf3))
+    | _ -> raise (Parse_error "args"));
+  register "spec_edismax" (function [n; fields; mm; tie; pf; pf2; pf3; idf] ->
+      of_api (of_list of_q) (M.edismax_spec (to_idf idf) (to_nat n) (build_equery fields mm tie pf pf2 pf3))
+    | _ -> raise (Parse_error "args"))
+
 let () = main ()
